@@ -1,8 +1,10 @@
 """C16 - TrueType outlines are decoded with correct contour and composite semantics.
 
-spec -> impl : TLC explores MC_Glyf (every on/off pattern of contours of 1..5 points, 1..3 contours, six
-               flag/coordinate encodings, composite trees of depth <= 3 over every transform kind, chains
-               around the nesting bound, cycles), checks the design invariants of Glyf.tla and prints one
+spec -> impl : TLC explores MC_Glyf (every on/off pattern of contours of 1..5 points, 1..4 contours, eight
+               flag/coordinate encodings, points at the corners of the coordinate range, records with
+               numberOfContours = 0, composite trees of depth <= 3 over every transform kind, scaled offsets,
+               components placed by point numbers, composites with instructions, chains around the nesting
+               bound, cycles), checks the design invariants of Glyf.tla and prints one
                CASE per glyph table (real glyf bytes). The harness lays the records out as glyf/loca, calls
                allsorts' OutlineBuilder::visit with a recording sink and logs what was delivered.
 impl -> spec : glyphs of the repository's glyf fonts (records sliced out by an independent reader) are
@@ -26,8 +28,18 @@ ASSUMPTIONS = [
     "left open by the property text (Dev_Start, Dev_ExplicitClose): any such walk is accepted",
     "a two-by-two component matrix is read as Apple's TrueType reference, FreeType, HarfBuzz and fontTools do: "
     "file order xscale, scale01, scale10, yscale with x' = xscale*x + scale10*y, y' = scale01*x + yscale*y",
-    "components positioned by point numbers (ARGS_ARE_XY_VALUES clear) and SCALED_COMPONENT_OFFSET with a matrix are "
-    "not modelled (none occurs in the repository fonts; never generated); malformed records are not judged (C01)",
+    "a component with ARGS_ARE_XY_VALUES clear is moved so that its point argument2 (after its matrix) lies on point "
+    "argument1 of what the earlier components of the same composite delivered; numbers that do not name a delivered "
+    "point (first component, phantom points) are not judged (counted as 'unmodelled')",
+    "SCALED_COMPONENT_OFFSET (without UNSCALED_COMPONENT_OFFSET, which wins as the default does) under a scale / x-y scale: "
+    "the offset is multiplied by the matrix (OpenType text, HarfBuzz, allsorts' own composite bounding box) or by the "
+    "lengths of its rows (Apple, FreeType) - either is accepted (Dev_ScaledOffsetSign; they differ only for a negative "
+    "factor); under a two-by-two with off-diagonal terms it is not judged",
+    "malformed records are not judged (C01): among them a record whose instructionLength runs past its end and a "
+    "composite flagged WE_HAVE_INSTRUCTIONS without the instruction bytes; a 10- or 11-byte record (no "
+    "instructionLength) is malformed, a 12-byte record with numberOfContours = 0 is a glyph that draws nothing",
+    "USE_MY_METRICS, OVERLAP_COMPOUND, ROUND_XY_TO_GRID, OVERLAP_SIMPLE and composite instructions say nothing about the "
+    "unhinted outline: they are generated and must not change what is delivered",
     "the nesting bound is the implementation's (6 levels below the visited glyph); deeper nesting and cycles must "
     "end in an error, not a panic",
     "composite children with coordinates beyond 16384 units under a matrix are outside the model's 32-bit domain and skipped (counted)",
@@ -66,6 +78,10 @@ def _case_features(abs_):
     f = []
     if abs_["kind"] == "simple":
         f.append("simple_%d_contours" % len(abs_["pats"]))
+        if abs_["mode"]["ovl"]:
+            f.append("flag_overlap_simple")
+        if abs_["v"] == 9:
+            f.append("coords_at_i16_corners")
         f.append("enc_rep_" + abs_["mode"]["rep"])
         f.append("enc_zero_" + ("same" if abs_["mode"]["same"] else abs_["mode"]["zero"]))
         f.append("enc_short" if abs_["mode"]["short"] else "enc_words")
@@ -81,13 +97,40 @@ def _case_features(abs_):
     elif abs_["kind"] == "long":
         f.append("long_run_%s_%s" % (abs_["mode"]["rep"], "ge257" if abs_["v"] >= 257 else "le256"))
     else:
-        f.append("composite_depth_%d" % len(abs_["defs"]))
-        for d in abs_["defs"]:
-            for c in d:
+        if abs_["kind"] == "zero":
+            # glyph 2 is a non-empty record with numberOfContours = 0 (header, instructions, no point)
+            f.append("zero_contours_visited" if not abs_["defs"] else "zero_contours_as_component")
+            f.append("zero_contours_no_instructions" if abs_["v"] == 0 else
+                     "zero_contours_instr_ge4" if abs_["v"] >= 4 else "zero_contours_instr_lt4")
+        if abs_["defs"]:
+            f.append("composite_depth_%d" % len(abs_["defs"]))
+        for k, d in enumerate(abs_["defs"]):
+            for j, c in enumerate(d):
                 f.append("matrix_" + c["kind"])
+                ident = c["kind"] == "none"
+                if c["pts"]:
+                    f.append("point_numbers_words" if c["words"] else "point_numbers_bytes")
+                    f.append("point_numbers_" + ("plain" if ident else "with_matrix"))
+                    if k > 0:
+                        f.append("point_numbers_nested")
+                    continue
                 f.append("offset_words" if c["words"] else "offset_bytes")
                 if c["a1"] < 0 or c["a2"] < 0:
                     f.append("offset_words_negative" if c["words"] else "offset_bytes_negative")
+                if c["extra"] & 0x800:
+                    both = bool(c["extra"] & 0x1000)
+                    f.append("scaled_offset_and_unscaled_flag" if both else
+                             "scaled_offset_no_matrix" if ident else "scaled_offset_with_matrix")
+                    if not both and not ident and (c["xx"] < 0 or c["yy"] < 0):
+                        f.append("scaled_offset_negative_factor")
+                elif c["extra"] & 0x1000:
+                    f.append("unscaled_offset_flag")
+                if c["extra"] & 0x200:
+                    f.append("use_my_metrics")
+                if c["extra"] & 0x400:
+                    f.append("overlap_compound")
+                if c["extra"] & 0x100:
+                    f.append("composite_instructions")
     return f
 
 
@@ -97,7 +140,13 @@ NEEDED_FEATURES = [
     "enc_zero_short+", "enc_zero_short-", "contour_all_off", "contour_first_off_last_on",
     "contour_first_off_last_off_some_on", "contour_single_point", "composite_depth_1", "composite_depth_2",
     "composite_depth_3", "matrix_none", "matrix_scale", "matrix_xy", "matrix_2x2", "offset_words", "offset_bytes",
-    "offset_bytes_negative", "offset_words_negative"]
+    "offset_bytes_negative", "offset_words_negative",
+    "flag_overlap_simple", "coords_at_i16_corners", "simple_4_contours",
+    "zero_contours_visited", "zero_contours_as_component", "zero_contours_no_instructions", "zero_contours_instr_ge4",
+    "zero_contours_instr_lt4", "point_numbers_words", "point_numbers_bytes", "point_numbers_plain",
+    "point_numbers_with_matrix", "point_numbers_nested", "scaled_offset_with_matrix", "scaled_offset_no_matrix",
+    "scaled_offset_and_unscaled_flag", "scaled_offset_negative_factor", "unscaled_offset_flag", "use_my_metrics",
+    "overlap_compound", "composite_instructions"]
 
 # planted self-check events: case name -> must the judge reject it?
 SELFTEST = {
@@ -114,7 +163,19 @@ SELFTEST = {
     "selftest-beyond-bound-error": False,
     "selftest-beyond-bound-delivered": True,
     "selftest-beyond-bound-panic": True,
+    # a non-empty record with numberOfContours = 0 draws nothing
+    "selftest-zero-contours-nothing-drawn": False,
+    "selftest-zero-contours-something-drawn": True,
+    "selftest-zero-contours-error": True,
+    # SCALED_COMPONENT_OFFSET under a negative factor: both named readings are accepted, the unscaled one is not
+    "selftest-scaled-offset-as-prescribed": False,
+    "selftest-scaled-offset-row-lengths": False,
+    "selftest-scaled-offset-ignored": True,
+    # a component placed by point numbers
+    "selftest-point-numbers-as-prescribed": False,
+    "selftest-point-numbers-ignored": True,
 }
+SOURCES = ("exact", "matrix", "negbyte", "err", "zero", "scaled", "anchor")
 
 
 def _planted_events(src):
@@ -139,6 +200,7 @@ def _planted_events(src):
     failed = {"ok": False, "panic": False, "err": "BadValue", "finite": True, "cmds": []}
     panicked = {"ok": False, "panic": True, "err": "Panic:planted", "finite": True, "cmds": []}
     ex, mx, nb, er = src["exact"], src["matrix"], src["negbyte"], src["err"]
+    ze, sc, an = src["zero"], src["scaled"], src["anchor"]
     dropped = json.loads(json.dumps(ex["exp"]))
     del dropped[next(j for j, c in enumerate(dropped) if c[0] == 3)]
     out = [
@@ -156,6 +218,14 @@ def _planted_events(src):
         ev(er, "selftest-beyond-bound-error", failed),
         ev(er, "selftest-beyond-bound-delivered", delivered([])),
         ev(er, "selftest-beyond-bound-panic", panicked),
+        ev(ze, "selftest-zero-contours-nothing-drawn", delivered([])),
+        ev(ze, "selftest-zero-contours-something-drawn", delivered(ex["exp"])),
+        ev(ze, "selftest-zero-contours-error", failed),
+        ev(sc, "selftest-scaled-offset-as-prescribed", delivered(sc["exp"])),
+        ev(sc, "selftest-scaled-offset-row-lengths", delivered(sc["hyp"])),
+        ev(sc, "selftest-scaled-offset-ignored", delivered(sc["unsc"])),
+        ev(an, "selftest-point-numbers-as-prescribed", delivered(an["exp"])),
+        ev(an, "selftest-point-numbers-ignored", delivered(an["noanc"])),
     ]
     for k, x in enumerate(out):
         x["i"] = 10 ** 8 + 1 + k
@@ -171,12 +241,22 @@ def _pick_sources(src, c):
         src["exact"] = c
     if a["kind"] == "composite" and len(a["defs"]) == 1 and len(a["defs"][0]) == 1 and c["st"] == "ok" and has_q:
         d = a["defs"][0][0]
-        if "matrix" not in src and d["kind"] == "scale":
+        plain = not d["pts"] and not d["extra"] & 0x800
+        if "matrix" not in src and d["kind"] == "scale" and plain:
             src["matrix"] = c
-        if "negbyte" not in src and d["kind"] == "none" and not d["words"] and d["a1"] < 0:
+        if "negbyte" not in src and d["kind"] == "none" and not d["words"] and d["a1"] < 0 and plain:
             src["negbyte"] = c
     if "err" not in src and c["st"] == "err":
         src["err"] = c
+    if "zero" not in src and a["kind"] == "zero" and not a["defs"] and a["v"] >= 4 and c["st"] == "ok":
+        src["zero"] = c
+    if a["kind"] == "composite" and len(a["defs"]) == 1 and c["st"] == "ok":
+        d = a["defs"][0]
+        if ("scaled" not in src and len(d) == 1 and d[0]["extra"] == 0x800 and d[0]["kind"] != "none"
+                and c["hyp"] != c["exp"] and c["unsc"] != c["exp"] and c["unsc"] != c["hyp"]):
+            src["scaled"] = c
+        if "anchor" not in src and any(x["pts"] for x in d) and c["noanc"] != c["exp"] and c["exact"]:
+            src["anchor"] = c
 
 
 def run(ctx):
@@ -218,7 +298,7 @@ def _run(ctx, violations, cov, deferred):
                 features[f] = features.get(f, 0) + 1
             if c["st"] == "err":
                 n_err_expected[0] += 1
-            if len(src) < 4:
+            if len(src) < len(SOURCES):
                 _pick_sources(src, c)
         mc = vlib.run_tlc(ctx, "MC_Glyf", cfg, "mc", workers=4, timeout=600 if ctx.quick else 2400, sink=sink)
     ctx.note("MC_Glyf: %d states generated, %d distinct, %d cases, design invariants hold (%.1fs)" %
@@ -229,9 +309,8 @@ def _run(ctx, violations, cov, deferred):
     missing = [k for k in NEEDED_FEATURES if features.get(k, 0) == 0]
     if missing or n_err_expected[0] == 0:
         raise vlib.ToolError("generator is vacuous for: %s (expected-error cases: %d)" % (missing, n_err_expected[0]))
-    if len(src) < 4:
-        raise vlib.ToolError("self-check: the generator produced no case of shape %s" %
-                             sorted({"exact", "matrix", "negbyte", "err"} - set(src)))
+    if len(src) < len(SOURCES):
+        raise vlib.ToolError("self-check: the generator produced no case of shape %s" % sorted(set(SOURCES) - set(src)))
     sample_case = {k: src["exact"][k] for k in ("abs", "n", "root", "st", "exp")}
     cov.update({"states": mc.distinct, "tlc_states_generated": mc.generated, "generated_cases": n_cases[0],
                 "generated_cases_expected_error": n_err_expected[0], "generated_case_features": features,
@@ -254,6 +333,7 @@ def _run(ctx, violations, cov, deferred):
         rec = {"glyphs": 0, "fonts": 0, "composites": 0, "nested_composites": 0}
         open(rec_trace, "w").close()
     n_rec = sum(1 for _ in open(rec_trace))
+    n_gen = sum(1 for _ in open(gen_trace))
 
     planted = _planted_events(src)
     trace = ctx.path("trace.ndjson")
@@ -300,7 +380,8 @@ def _run(ctx, violations, cov, deferred):
         skip_why[s["why"]] = skip_why.get(s["why"], 0) + 1
     cov.update({
         "transitions": total,
-        "traces_validated_against_impl": n_cases[0] + n_rec,
+        "traces_validated_against_impl": n_gen + n_rec,
+        "generated_revisits_on_same_table": rep.get("revisits", 0),
         "samples": [sample_case] + ([{"case": sample_rec["case"], "root": sample_rec["a"]["root"],
                                       "cmds_first": sample_rec["o"]["cmds"][:6]}] if sample_rec else []),
         "generated_visits_not_ok": rep.get("visits_not_ok", 0),
@@ -321,8 +402,9 @@ def _run(ctx, violations, cov, deferred):
 
     # the remaining guards concern the tool itself (specification, harness inputs, driver); they are raised only
     # now, and run() lets violations win over them
-    if total != n_cases[0] + n_rec + len(planted):
-        raise vlib.ToolError("judge consumed %d events, expected %d" % (total, n_cases[0] + n_rec + len(planted)))
+    if n_gen != n_cases[0] + rep.get("revisits", 0) or total != n_gen + n_rec + len(planted):
+        raise vlib.ToolError("judge consumed %d events, expected %d generated cases + %d revisits + %d recorded + %d planted" % (
+            total, n_cases[0], rep.get("revisits", 0), n_rec, len(planted)))
     seen_self = {m["case"] for m in mism if m["case"].startswith("selftest-")}
     want_self = {k for k, rejected in SELFTEST.items() if rejected}
     if seen_self != want_self:
